@@ -80,7 +80,7 @@ __CPROVER_requires(g_backup_len <= BK_MAX && g_backup[0]._id < NSYM && g_backup[
 __CPROVER_requires(__exc == 0 && __caught_n == 0 && g_clear_n == 0 && GLOBALS_PINNED)
 __CPROVER_assigns(__CPROVER_object_whole(this))
 PROP(C01, C11) __CPROVER_ensures(OK)
-PROP(C02, C11) __CPROVER_ensures(RESTORED(0) && RESTORED(1))
+PROP(C02, C11, C15) __CPROVER_ensures(RESTORED(0) && RESTORED(1))
 PROP(C11) __CPROVER_ensures(UNTOUCHED(0) && UNTOUCHED(1))
 PROP(C11) __CPROVER_ensures(g_backup_len == 0 && g_clear_n == 1 && this->_parsing == 0)
 /* names, ids and constraints are never touched by the restore */
